@@ -534,7 +534,7 @@ class Interp:
             return k.v
         if isinstance(k, AStr) and k.literal() is not None:
             return k.literal()
-        if isinstance(k, (int, str)):
+        if isinstance(k, (int, str)) or k is None:
             return k
         if isinstance(k, AOpaque) and k.what.replace('.', '').replace('_', '').isalnum() and '.' in k.what:
             return k.what           # an enum member named in the source (PhysicalQuantities.ANGLE): a name is its own key
@@ -718,6 +718,14 @@ class Interp:
                     return o.attrs[e.attr]
                 if e.attr == '__dict__':
                     return ADictOf(o)
+                cdef = o.attrs.get('__classdef__')
+                fnp = None
+                if isinstance(cdef, ast.ClassDef):
+                    fnp = next((n for n in cdef.body if isinstance(n, ast.FunctionDef) and n.name == e.attr), None)
+                elif e.attr in self.methods and o.attrs.get('__receiver__', True) is not False:
+                    fnp = self.methods[e.attr] if any(isinstance(d, ast.Name) and d.id == 'property' for d in self.methods[e.attr].decorator_list) else None
+                if fnp is not None and any(isinstance(d, ast.Name) and d.id == 'property' for d in fnp.decorator_list):
+                    return self.call_function(fnp, [o])
                 raise Unknown(f"attribute {e.attr} not modelled (line {e.lineno})")
             if isinstance(o, AOpaque):
                 return AOpaque(f"{o.what}.{e.attr}")
@@ -863,6 +871,13 @@ class Interp:
                 r = cv(a) in [cv(x) for x in items]
                 return r if isinstance(op, ast.In) else not r
             raise Unknown(f"membership on abstract values at line {getattr(node, 'lineno', 0)}")
+        if isinstance(op, (ast.Eq, ast.NotEq)) and isinstance(a, (tuple, AList)) and isinstance(b, (tuple, AList)) and type(a) is type(b):
+            xa = a.items if isinstance(a, AList) else list(a)
+            xb = b.items if isinstance(b, AList) else list(b)
+            r = len(xa) == len(xb) and all(self.compare(ast.Eq(), x, y, node) for x, y in zip(xa, xb))
+            return r if isinstance(op, ast.Eq) else not r
+        if isinstance(op, (ast.Eq, ast.NotEq, ast.Is, ast.IsNot)) and (a is None) != (b is None) and isinstance(a if b is None else b, (tuple, AList, ADict, ABytes, AStr, AObj)):
+            return isinstance(op, (ast.NotEq, ast.IsNot))
         if isinstance(a, ABytes) and isinstance(b, ABytes) and isinstance(op, (ast.Eq, ast.NotEq)):
             if len(a.items) != len(b.items):
                 r = False
